@@ -34,6 +34,8 @@ type c02Case struct {
 	Base     string            `json:"base,omitempty"`      // structural: the valid program the mistake was built on (premise: it parses)
 	// OpenFails: a path (the template itself or a referenced one) the loader reports as existing but cannot open
 	OpenFails string `json:"open_fails,omitempty"`
+	// OpenFailsKind: "runtime" = the error the loader returns is a Go runtime error value
+	OpenFailsKind string `json:"open_fails_kind,omitempty"`
 	// Name of the template ("" = /main.jet): names are data, also with characters that mean something to fmt
 	Name string `json:"name,omitempty"`
 }
@@ -147,9 +149,16 @@ func genC02(t *rapid.T) c02Case {
 			"/base.jet":   L + "block blk0()" + R + "base" + L + "end" + R,
 			"/broken.jet": L + "if" + R + L + "end",
 			"/cyc.jet":    L + `import "base.jet"` + R + L + `import "main.jet"` + R, // cycle when main is loaded by name
+			// stored templates that refer to themselves, by absolute and by relative name
+			"/selfloop.jet": L + `extends "/selfloop.jet"` + R,
+			"/selfrel.jet":  L + `import "base.jet"` + R + L + `import "selfrel.jet"` + R,
 		}
 		kw := rapid.SampledFrom([]string{"extends", "import"}).Draw(t, "refkw")
-		tgt := rapid.SampledFrom([]string{"base.jet", "/base.jet", "broken.jet", "missing.jet", "./base", "../base.jet", "cyc.jet", "main.jet", "", ".", "/", "..", "base.jet/"}).Draw(t, "reftgt")
+		tgt := rapid.SampledFrom([]string{"base.jet", "/base.jet", "broken.jet", "missing.jet", "./base", "../base.jet", "cyc.jet", "main.jet", "", ".", "/", "..", "base.jet/", "selfloop.jet", "/selfrel.jet", "selfrel.jet"}).Draw(t, "reftgt")
+		if strings.Contains(tgt, "self") && rapid.Bool().Draw(t, "parsedUnderTheNameOfTheSelfReferringOne") {
+			// the source is handed over under the very name of the stored template that refers to itself
+			c.Name = "/" + strings.TrimPrefix(tgt, "/")
+		}
 		header = L + kw + ` "` + tgt + `"` + R
 		if rapid.Bool().Draw(t, "secondref") {
 			header += "\n" + L + `import "base.jet"` + R
@@ -270,6 +279,9 @@ func genC02(t *rapid.T) c02Case {
 			c.OpenFails = "/main.jet"
 		}
 	}
+	if c.OpenFails != "" && rapid.IntRange(0, 2).Draw(t, "openFailsWithARuntimeError") == 0 {
+		c.OpenFailsKind = "runtime"
+	}
 	if c.OpenFails == "" && len(c.Files) == 0 && rapid.IntRange(0, 7).Draw(t, "oddName") == 0 {
 		c.Name = rapid.SampledFrom([]string{"/100%s%d.jet", "/caf%C3%A9/menu%20one.jet", "/50%off.jet", "/%v%q%!.jet"}).Draw(t, "name")
 	}
@@ -288,7 +300,7 @@ func judgeC02(c c02Case) (v core.Verdict) {
 		v.Discard = "too-long"
 		return
 	}
-	resp, crash, hang, infra := isoCall(isoReq{Op: c.Mode, Name: name, Src: c.Src, Delims: c.Delims, Files: c.Files, OpenFails: c.OpenFails})
+	resp, crash, hang, infra := isoCall(isoReq{Op: c.Mode, Name: name, Src: c.Src, Delims: c.Delims, Files: c.Files, OpenFails: c.OpenFails, OpenFailsKind: c.OpenFailsKind})
 	if infra != nil {
 		panic(infra)
 	}
@@ -386,7 +398,7 @@ func keys(m map[string]string) []string {
 func TestC02(t *testing.T) {
 	defer isoPool.Close()
 	core.Run(t, "C02",
-		"byte strings from 5 generators (valid full-grammar programs mutated by truncation/token delete-dup-swap/dictionary insertion/byte flip/splice; token soup in one action; delimiter-biased bytes; unmutated valid; structural mistakes that must be rejected; 1 case in 60 a library of 24-40 levels each importing the next one twice, all cached, with the page handed to Set.Parse) x template names (1 in 8 with percent signs) x delimiter configurations x referenced-template sets, via Set.Parse or GetTemplate, each in an isolated worker; plus every prefix of the seed templates; non-trivial = source contains a left delimiter and is not an unmutated valid program; distinct by case hash",
+		"byte strings from 5 generators (valid full-grammar programs mutated by truncation/token delete-dup-swap/dictionary insertion/byte flip/splice; token soup in one action; delimiter-biased bytes; unmutated valid; structural mistakes that must be rejected; 1 case in 60 a library of 24-40 levels each importing the next one twice, all cached, with the page handed to Set.Parse) x template names (1 in 8 with percent signs) x delimiter configurations x referenced-template sets, via Set.Parse or GetTemplate, each in an isolated worker; plus every prefix of the seed templates; also: stored templates that refer to themselves (absolute and relative name), also with the source handed to Set.Parse under the name of such a template; loader failures whose error value is a Go runtime error; non-trivial = source contains a left delimiter and is not an unmutated valid program; distinct by case hash",
 		genC02, judgeC02)
 }
 
